@@ -422,6 +422,13 @@ def gen_hierarchy(rng, depth, allow_hand=True, single_only=False):
                 deco["key"] = keyed_here = rng.choice(cands)
             elif r < 0.14:
                 deco["key"] = keyed_here = None
+            elif r < 0.34 and inh_key not in [a for a, _ in k["annots"]]:
+                # the decorator re-states the key the class inherits, without re-declaring the
+                # attribute (bootstrap then leaves the inherited attribute alone: the class body
+                # must not say anything else about it)
+                deco["key"] = inh_key
+                k["entries"] = [[a, e] for a, e in k["entries"] if a != inh_key]
+                mentioned = [a for a in mentioned if a != inh_key]
         if keyed_here is not None and keyed_here != KAPPA:
             # the key attribute is always initialisable
             k["entries"] = [[a, (e if not (a == keyed_here and e[0] == "attr") else [e[0], e[1], True, e[3]])]
@@ -508,8 +515,8 @@ def well_formed(h):
                 if key is not None:
                     if key in (OPTS, OPTS2, EXTRA, 0):
                         return "key name"
-                    if key not in names and key in inh:
-                        return "key restated without annotation"
+                    if key not in names and key in inh and key in enames:
+                        return "re-stated inherited key with a class-body entry"
                     managed.add(key)
             if any(a not in managed for a, _ in k["preps"]):
                 return "preparer for an unmanaged name"
